@@ -16,7 +16,7 @@ import time
 
 from vlib import core, jsonkit as jk
 
-IMPORTS = "From QV Require Import Json.JsonCheck."
+IMPORTS = "From QV Require Import Json.JsonCheck Json.Cover."
 KCODEC = {"jssp": "KJssp", "layer": "KLayer", "evqe": "KEvqe", "result": "KResult"}
 
 
@@ -44,7 +44,10 @@ def codec(name):
 # which encoder/decoder pairs claim which classes (the nested encoders delegate downwards: the population codec handles
 # bare layers and gates, the result codec bare individuals and populations).  The result codec does not claim bare
 # layers/gates (its default() ends without a clause: null) - those go through it for the correspondence only.
-UNCLAIMED = {("result", "Gate"), ("result", "EVQECircuitLayer")}
+# A bare QuasiDistribution is a dict for json.dumps: default() is never asked, it is written as a plain object and comes
+# back as a plain dict with string keys (observation reported to the lead; the property speaks of the eigenstate *of a
+# result*, which goes through self.default and round-trips).  Correspondence only.
+UNCLAIMED = {("result", "Gate"), ("result", "EVQECircuitLayer"), ("result", "bare QuasiDistribution")}
 GENERATORS = [
     # (label, codecs, generator, weight)
     ("Machine", ["jssp"], jk.gen_machine, 1),
@@ -58,6 +61,9 @@ GENERATORS = [
     ("EVQEPopulation", ["evqe", "result"], jk.gen_population, 8),
     ("BasePopulationEvaluationResult", ["result"], jk.gen_popeval, 4),
     ("EvolvingAnsatzMinimumEigensolverResult", ["result"], jk.gen_solver_result, 12),
+    ("complex", ["result"], lambda rng: {"c": [float(rng.choice(jk.FLOATS)), float(rng.choice(jk.FLOATS))]}, 1),
+    ("QuantumCircuit", ["result"], lambda rng: {"qc": f"QPY{rng.randrange(4)}"}, 1),
+    ("bare QuasiDistribution", ["result"], jk.gen_quasi, 1),
 ]
 
 
@@ -72,13 +78,17 @@ def strip_path(d):
     return p[2:] if p.startswith("x.") else p
 
 
-def roundtrip(ctx, case, x, codec_name, label):
-    """x: implementation object. Runs oracle, returns the Gallina case or None."""
+def roundtrip(ctx, case, x, codec_name, label, encode=None, note=""):
+    """x: implementation object *as it is now*. Runs the oracle, returns the Gallina case or None.
+    encode: how the text is produced (default json.dumps(x, cls=Enc)); note: where in a sequence we are."""
     Enc, Dec = codec(codec_name)
     x_pv = jk.to_pv(x)
     report = ctx.violation if (codec_name, label) not in UNCLAIMED else (lambda *a, **k: None)
+    if note:
+        inner = report
+        report = lambda kind, key, what, c=None, detail=None: inner(kind, key, f"{what} [{note}]", c, detail)
     try:
-        text = json.dumps(x, cls=Enc)
+        text = json.dumps(x, cls=Enc) if encode is None else encode(x)
     except Exception as e:
         report("oracle", f"encode-raises-{label}-{exc_name(e)}", f"json.dumps of a {label} with {Enc.__name__} raises {exc_name(e)}: {e}", case)
         return None
@@ -102,6 +112,181 @@ def roundtrip(ctx, case, x, codec_name, label):
         return None
     tree = jk.tokenise_circuits(raw)
     return f"CRound {KCODEC[codec_name]} {jk.g_pv(x_pv)} (Ok {jk.g_json(tree)}) {jk.g_res(dec, jk.g_pv)}"
+
+
+# ------------------------------------------------------------------ operation sequences in one process
+# The property quantifies over every serialisable object, so the encoding must be a function of the object's *current*
+# value: nothing may be remembered between calls by object identity, per encoder instance, per class or per module.
+# (In the Coq model `encode` is a function of the value; that the implementation keeps no state is what these
+# sequences test.)  Every step is the ordinary oracle: decode(encode(x)) equals x as it is now, field by field.
+def random_circuit(rng, n=2, gates=None):
+    from qiskit.circuit import QuantumCircuit
+
+    qc = QuantumCircuit(n)
+    for _ in range(rng.randint(0, 3) if gates is None else gates):
+        add_gate(rng, qc)
+    return qc
+
+
+def add_gate(rng, qc):
+    n = qc.num_qubits
+    k = rng.choice(["h", "x", "rz", "cx"] if n > 1 else ["h", "x", "rz"])
+    if k == "cx":
+        a, b = rng.sample(range(n), 2)
+        qc.cx(a, b)
+    elif k == "rz":
+        qc.rz(rng.choice([0.5, 0.25, -1.0, rng.random()]), rng.randrange(n))
+    else:
+        getattr(qc, k)(rng.randrange(n))
+
+
+def encoders_for(rng, codec_name):
+    """json.dumps with the class (a new encoder object per call), two long-lived encoder instances, and dumps with indent"""
+    Enc, _ = codec(codec_name)
+    e1, e2 = Enc(), Enc()
+    return [("dumps(cls)", lambda o: json.dumps(o, cls=Enc)), ("instance-1.encode", e1.encode), ("instance-2.encode", e2.encode),
+            ("dumps(cls, indent)", lambda o: json.dumps(o, cls=Enc, indent=1))]
+
+
+def mutate_result(rng, r):
+    """one in-place change of a mutable component of a solver result; returns its description"""
+    from qiskit.result import QuasiDistribution
+
+    pops = [e.population for e in (r.population_evaluation_results or [])]
+    pops = [p for p in pops if p.species_representatives is not None and p.individuals]
+    k = rng.choice(["circuit", "circuit", "circuit", "evaluations", "history", "aux", "eigenstate", "generations", "species", "eigenvalue"])
+    if k == "circuit":
+        if r.initial_state_circuit is None:
+            r.initial_state_circuit = random_circuit(rng)
+            return "initial_state_circuit set"
+        add_gate(rng, r.initial_state_circuit)
+        return "initial_state_circuit gets another gate in place"
+    if k == "evaluations":
+        if r.circuit_evaluations is None:
+            r.circuit_evaluations = []
+        r.circuit_evaluations.append(rng.randint(0, 99))
+        return "circuit_evaluations.append"
+    if k == "history":
+        if r.population_evaluation_results is None:
+            r.population_evaluation_results = []
+        r.population_evaluation_results.append(jk.from_pv(jk.gen_popeval(rng, 2)))
+        return "population_evaluation_results.append"
+    if k == "aux":
+        a = r.aux_operators_evaluated
+        if isinstance(a, list):
+            a.append(rng.choice([0.5, 2, None, 1 + 2j]))
+            return "aux list.append"
+        if isinstance(a, dict):
+            a[f"k{len(a)}"] = rng.choice([0.25, 3])
+            return "aux dict gets a key"
+        r.aux_operators_evaluated = [1.5]
+        return "aux set"
+    if k == "eigenstate":
+        if isinstance(r.eigenstate, QuasiDistribution):
+            r.eigenstate[rng.randrange(8)] = rng.choice([0.125, 0.5])
+            r.eigenstate.shots = rng.choice([None, 7, 512])
+            return "eigenstate item and shots changed in place"
+        r.eigenstate = QuasiDistribution({1: 1.0}, shots=3)
+        return "eigenstate set"
+    if k == "generations":
+        r.generations = rng.randint(0, 50)
+        return "generations set"
+    if k == "species" and pops:
+        p = rng.choice(pops)
+        rep = rng.choice(p.individuals)
+        p.species_representatives.append(rep)
+        if p.species_members is not None:
+            p.species_members.setdefault(rep, []).append(rng.randrange(len(p.individuals)))
+        if p.species_membership is not None:
+            p.species_membership[rng.randrange(len(p.individuals))] = rep
+        return "a recorded population's species lists/dicts extended in place"
+    r.eigenvalue = rng.choice([None, -0.75, 2, 1 - 1j])
+    return "eigenvalue set"
+
+
+def mutate_population(rng, p):
+    if p.species_representatives is None or not p.individuals:
+        p.species_representatives, p.species_members, p.species_membership = [], {}, {}
+        return "species information initialised"
+    rep = rng.choice(p.individuals)
+    p.species_representatives.append(rep)
+    if p.species_members is not None:
+        p.species_members.setdefault(rep, []).append(rng.randrange(len(p.individuals)))
+    if p.species_membership is not None:
+        p.species_membership[rng.randrange(len(p.individuals))] = rep
+    return "species lists/dicts extended in place"
+
+
+def mutate_jssp_result(rng, res):
+    """the schedule dict is the caller's object: re-schedule one job in place (same operations, other start times)"""
+    from queasars.job_shop_scheduling.problem_instances import ScheduledOperation, UnscheduledOperation
+
+    if not res.schedule:
+        return "nothing to change"
+    job = rng.choice(list(res.schedule.keys()))
+    res.schedule[job] = tuple(UnscheduledOperation(p.operation) if rng.random() < 0.3 else ScheduledOperation(p.operation, rng.choice([0, 1, 4, 9]))
+                              for p in res.schedule[job])
+    return "schedule[job] replaced in place"
+
+
+def run_sequence(ctx, case):
+    """-> list of Gallina cases. The whole sequence is a function of case['seed']."""
+    import gc
+    import random
+
+    rng = random.Random(case["seed"])
+    jk.reset_dynamic_circuits()
+    scenario, out = case["scenario"], []
+    label = f"sequence:{scenario}"
+
+    def step(x, codec_name, k, what, enc=None):
+        name, fn = enc if enc else ("dumps(cls)", None)
+        g = roundtrip(ctx, case, x, codec_name, label, encode=fn, note=f"step {k}: {what}; encoded with {name}")
+        case.pop("_raw", None)
+        if g:
+            out.append(g)
+
+    if scenario == "mutate-result":
+        r = jk.from_pv(jk.gen_solver_result(rng))
+        r.initial_state_circuit = random_circuit(rng, rng.choice([2, 3]), gates=1)
+        encs = encoders_for(rng, "result")
+        step(r, "result", 0, "fresh result", rng.choice(encs))
+        for k in range(1, case["steps"]):
+            what = mutate_result(rng, r)
+            if rng.random() < 0.3:  # other codecs in between
+                step(jk.from_pv(jk.gen_jssp_result(rng)), "jssp", k, "interleaved job-shop result")
+            step(r, "result", k, what, rng.choice(encs))
+    elif scenario == "mutate-population":
+        p = jk.from_pv(jk.gen_population(rng))
+        cn = rng.choice(["evqe", "result"])
+        encs = encoders_for(rng, cn)
+        step(p, cn, 0, "fresh population", rng.choice(encs))
+        for k in range(1, case["steps"]):
+            step(p, cn, k, mutate_population(rng, p), rng.choice(encs))
+    elif scenario == "mutate-jssp":
+        res = jk.from_pv(jk.gen_jssp_result(rng))
+        encs = encoders_for(rng, "jssp")
+        step(res, "jssp", 0, "fresh job-shop result", rng.choice(encs))
+        for k in range(1, case["steps"]):
+            step(res, "jssp", k, mutate_jssp_result(rng, res), rng.choice(encs))
+    elif scenario == "short-lived":
+        # many results, each with its own short-lived circuit: distinct circuits of equal size, freed before the next is built
+        encs = encoders_for(rng, "result")
+        for k in range(case["steps"]):
+            r = jk.from_pv(jk.gen_solver_result(rng))
+            qc = random_circuit(rng, 2, gates=0)
+            qc.rz(0.001 * (k + 1), k % 2)  # distinct from every other iteration's circuit
+            for _ in range(k % 3):
+                add_gate(rng, qc)
+            r.initial_state_circuit = qc
+            step(r, "result", k, "new result with a new short-lived circuit", rng.choice(encs))
+            if k % 4 == 1:
+                step(jk.from_pv(jk.gen_population(rng)), "evqe", k, "interleaved population")
+            del r, qc
+            gc.collect()
+    else:
+        raise ValueError(scenario)
+    return out
 
 
 # ------------------------------------------------------------------ decoder-only cases: damaged trees
@@ -224,9 +409,10 @@ def solver_result(cfg):
 
 # ------------------------------------------------------------------ model evaluation
 def model_eval(name, glits, chunk=120):
-    """-> (indices the model disagrees on, indices of decoder-only cases outside the model's scope)"""
+    """-> (indices the model disagrees on, indices of decoder-only cases outside the model's scope,
+    indices of round-trip cases whose object satisfies the hypotheses of the round-trip theorems)"""
     # shards balanced by literal size (Coq's time goes into type-checking the literals)
-    n_shards = max(1, min(16, len(glits) // 8))
+    n_shards = max(1, min(16, len(glits) // 8), sum(len(g) for g in glits) // 2_500_000)
     order = sorted(range(len(glits)), key=lambda i: -len(glits[i]))
     groups, sizes = [[] for _ in range(n_shards)], [0] * n_shards
     for i in order:
@@ -241,20 +427,26 @@ def model_eval(name, glits, chunk=120):
             f"{IMPORTS}\nOpen Scope list_scope.\nDefinition cases : list c18case := [\n  {body}\n].\n"
             "Definition numbered := combine (seq 0 (length cases)) cases.\n"
             "Eval vm_compute in (map fst (filter (fun ic => negb (check_case (snd ic))) numbered)).\n"
-            "Eval vm_compute in (map fst (filter (fun ic => out_of_scope (snd ic)) numbered)).\n")
+            "Eval vm_compute in (map fst (filter (fun ic => out_of_scope (snd ic)) numbered)).\n"
+            "Eval vm_compute in (map fst (filter (fun ic => case_covered (snd ic)) numbered)).\n")
     outs = core.coq_eval(name, shards, timeout=900)
-    bad, scope = [], []
+    for junk in (core.BUILD / "cases" / (name + core.SCRATCH_SUFFIX)).glob("*.[vg][ol]*"):  # .vo .vok .vos .glob: large, useless
+        junk.unlink()
+    bad, scope, covered = [], [], []
     for si, out in enumerate(outs):
         ms = re.findall(r"=\s*(\[.*?\]|nil)\s*:\s*list", out, re.S)
-        if len(ms) != 2:
+        if len(ms) != 3:
             raise RuntimeError("cannot parse Coq output: " + out[:600])
         bad += [groups[si][int(x)] for x in re.findall(r"\d+", ms[0])]
         scope += [groups[si][int(x)] for x in re.findall(r"\d+", ms[1])]
-    return sorted(bad), sorted(scope)
+        covered += [groups[si][int(x)] for x in re.findall(r"\d+", ms[2])]
+    return sorted(bad), sorted(scope), set(covered)
 
 
 def do_case(ctx, case):
-    """-> Gallina case or None"""
+    """-> Gallina case, list of Gallina cases (sequence) or None"""
+    if case["kind"] == "sequence":
+        return run_sequence(ctx, case)
     if case["kind"] == "round":
         x = jk.from_pv(case["x"])
         return roundtrip(ctx, case, x, case["codec"], case["label"])
@@ -281,14 +473,16 @@ def run(ctx):
                 "characters and marker-key spellings; ints where floats are documented, integer-valued floats, denormals; None fields; empty "
                 "collections; duplicate hash-equal individuals; representatives inside/outside the population; schedule dicts in any order; "
                 "start time 0; unscheduled operations), each through every codec that claims its class; damaged encoded trees for the decoders; "
-                "results of real solver runs. distinct = distinct (codec, object); non-trivial = composite objects (not a bare machine/gate)")
+                "results of real solver runs; operation sequences in one process (encode, change a mutable component in place - circuit gate, "
+                "list/dict fields, species maps, schedule dict - encode again; series of results with short-lived distinct circuits and gc "
+                "between them; two encoder instances, json.dumps(cls=...) and indent; codecs interleaved). distinct = distinct (codec, object); non-trivial = composite objects (not a bare machine/gate)")
     cases = []
     cdir = core.ROOT / "corpus" / "C18"
     for f in sorted(cdir.glob("*.json")) if cdir.exists() else []:
         c = json.loads(f.read_text())
         cases.append(c.get("case", c))
     total = sum(w for *_, w in GENERATORS)
-    n_obj = ctx.n(900, 12000)
+    n_obj = ctx.n(600, 6000)
     for label, codecs, gen, w in GENERATORS:
         for _ in range(max(2, n_obj * w // total)):
             pv = gen(ctx.rng)
@@ -296,8 +490,12 @@ def run(ctx):
                 cases.append(dict(kind="round", codec=c, label=label, x=pv))
     for cfg in SOLVER_CONFIGS[: ctx.n(2, 4)]:
         cases.append(dict(kind="solver", config=cfg))
+    for scenario, count, steps in (("mutate-result", ctx.n(12, 80), 6), ("mutate-population", ctx.n(4, 30), 4),
+                                   ("mutate-jssp", ctx.n(4, 30), 4), ("short-lived", ctx.n(2, 8), ctx.n(40, 120))):
+        for _ in range(count):
+            cases.append(dict(kind="sequence", scenario=scenario, seed=ctx.rng.randrange(10**9), steps=steps, label=f"sequence:{scenario}"))
     glits, kept = [], []
-    n_damage = ctx.n(1, 3)
+    n_damage = 1
     for c in cases:
         g = do_case(ctx, c)
         label = c.get("label", c["kind"])
@@ -305,7 +503,13 @@ def run(ctx):
         nontriv = label not in ("Machine", "Gate")
         fp = public(c)
         ctx.case(fp, nontriv, sample=fp if (nontriv and c["kind"] == "round" and len(json.dumps(fp)) < 1500) else None)
-        if g is not None:
+        if isinstance(g, list):
+            ctx.evaluations += max(0, len(g) - 1)
+            ctx.tally("sequence-steps", len(g))
+            for gg in g:
+                glits.append(gg)
+                kept.append(c)
+        elif g is not None:
             glits.append(g)
             kept.append(c)
         raw = c.pop("_raw", None)
@@ -320,8 +524,35 @@ def run(ctx):
                 if g is not None:
                     glits.append(g)
                     kept.append(dc)
-    bad, scope = model_eval("C18", glits)
+    # Coq's time and memory go into type-checking the case literals: the model is evaluated on at most MODEL_BYTES of
+    # them (corpus and solver results always, the rest drawn evenly); the oracle above has run on every case
+    budget, total = ctx.n(12_000_000, 45_000_000), sum(len(g) for g in glits)
+    if total > budget:
+        order = list(range(len(glits)))
+        ctx.rng.shuffle(order)
+        order.sort(key=lambda i: kept[i]["kind"] != "solver")
+        chosen, used = [], 0
+        for i in order:
+            if used + len(glits[i]) <= budget:
+                chosen.append(i)
+                used += len(glits[i])
+        chosen.sort()
+        glits, kept = [glits[i] for i in chosen], [kept[i] for i in chosen]
+        ctx.notes["model_evaluated_on"] = f"{len(chosen)} of {len(order)} cases ({used} of {total} literal bytes)"
+    bad, scope, covered = model_eval("C18", glits)
     ctx.notes["decoder_only_cases_outside_model_scope"] = len(scope)
+    # every generated object of a class the theorems speak about must satisfy their hypotheses (typed view exists,
+    # embeds back to the very object, constructors' checks and key distinctness hold): the theorems are about what the
+    # public constructors build, not about a convenient subset
+    NOT_IN_THEOREMS = {"complex", "QuantumCircuit", "bare QuasiDistribution"}
+    should = [i for i, c in enumerate(kept) if c["kind"] in ("round", "solver") and c.get("label") not in NOT_IN_THEOREMS
+              and (c.get("codec", "result"), c.get("label")) not in UNCLAIMED]
+    missing = [i for i in should if i not in covered]
+    ctx.notes["objects_satisfying_theorem_hypotheses"] = f"{len(should) - len(missing)}/{len(should)}"
+    for i in missing[:2]:
+        ctx.violation("correspondence", f"outside-theorem-hypotheses-{kept[i].get('label', 'solver')}",
+                      "a constructible object of a class the round-trip theorems quantify over does not satisfy their hypotheses "
+                      "(typed view / constructors' checks / key distinctness)", public(kept[i]), detail=dict(gallina=glits[i][:3000]))
     ctx.notes["model_cases"] = len(glits)
     seen = set()
     for i in bad:
@@ -348,7 +579,7 @@ def replay(ctx, payload):
         print("oracle:", v["what"])
     print("impl round trip:", "FAILS" if ctx.violations else "ok")
     if g:
-        bad, scope = model_eval("C18_replay", [g])
+        bad, scope, _ = model_eval("C18_replay", g if isinstance(g, list) else [g])
         print("model-vs-impl:", "DIFFER" if bad else ("outside model scope" if scope else "agree"))
     else:
         print("model-vs-impl: not compared (value outside the model, or the encoder raised)")
